@@ -133,3 +133,148 @@ def body_is_trivial(func):
 
 def const_value(node):
     return node.value if isinstance(node, ast.Constant) else None
+
+
+# --------------------------------------------------------------------------- re-construction completeness
+def _init_state_params(init):
+    """parameter -> set of self attributes the constructor derives from it (directly: an assignment whose value mentions the
+    parameter and whose target is self.<attr>; or through super().__init__/Base.__init__(self, ..., p, ...))"""
+    a = init.node.args
+    params = [x.arg for x in a.args][1:] + [x.arg for x in a.kwonlyargs]
+    out = dict((p, set()) for p in params)
+    for st in ast.walk(init.node):
+        if isinstance(st, ast.Assign):
+            names = norm.names_in(st.value)
+            for t in st.targets:
+                if isinstance(t, ast.Attribute) and isinstance(t.value, ast.Name) and t.value.id == "self":
+                    for p in params:
+                        if p in names:
+                            out[p].add(t.attr)
+        if isinstance(st, ast.Call) and norm.call_name(st) == "__init__":
+            for x in list(st.args) + [k.value for k in st.keywords]:
+                if isinstance(x, ast.Name) and x.id in out:
+                    out[x.id].add("<passed to the base constructor>")
+    return params, out
+
+
+def constructed_names(prog):
+    """names used as callee anywhere in the program (a class whose name never appears there is never instantiated directly)"""
+    r = getattr(prog, "_constructed_names", None)
+    if r is None:
+        r = set()
+        for f in prog.functions.values():
+            for c in norm.calls_in(f.node):
+                if isinstance(c.func, ast.Name):
+                    r.add(c.func.id)
+                elif isinstance(c.func, ast.Attribute):
+                    r.add(c.func.attr)
+        for m in prog.modules.values():
+            for c in ast.walk(m.tree):
+                if isinstance(c, ast.Call):
+                    if isinstance(c.func, ast.Name):
+                        r.add(c.func.id)
+                    elif isinstance(c.func, ast.Attribute):
+                        r.add(c.func.attr)
+        prog._constructed_names = r
+    return r
+
+
+def reconstruction_check(ctx, prog, classes, exceptions):
+    """Every place where a class re-creates an object of its own (dynamic) class -- self.__class__(...), type(self)(...), or its own
+    name -- hands over every constructor parameter that carries state: a rewrite (copy/replace/normalize/apply/simplify/...)
+    must not silently reset a setting to its default.  Accepted: the parameter is bound in the call; or the attribute(s) it
+    feeds are copied onto the result afterwards in the same function (`norm.minmatch = self.minmatch`, also in an override that
+    delegates to the base method); or the (function, parameter) pair is in the reviewed `exceptions` table.
+    Returns the number of construction sites examined."""
+    sites = 0
+    classes = list(classes)
+    cset = set(c.qualname for c in classes)
+    for cls in classes:
+        for f in cls.methods.values():
+            if f.name == "__init__":
+                continue
+            restored = set()
+            for st in ast.walk(f.node):
+                if isinstance(st, ast.Assign) and isinstance(st.value, ast.Attribute) and isinstance(st.value.value, ast.Name) \
+                        and st.value.value.id == "self":
+                    for t in st.targets:
+                        if isinstance(t, ast.Attribute) and isinstance(t.value, ast.Name) and t.value.id != "self" and t.attr == st.value.attr:
+                            restored.add(t.attr)
+            for c in norm.calls_in(f.node):
+                dyn = norm.canon(c.func) in ("self.__class__", "type(self)")
+                byname = isinstance(c.func, ast.Name) and c.func.id == cls.name
+                if not (dyn or byname):
+                    continue
+                concretes = [cls]
+                if dyn:
+                    concretes = [k for k in prog.subclasses(cls) if prog.lookup(k, f.name) is f]
+                    if f.name.startswith("_") and not f.name.startswith("__"):
+                        # a private helper counts for a class only if that class still has a caller of it
+                        def has_caller(k):
+                            seen = set()
+                            for kk in prog.mro(k):
+                                if isinstance(kk, str):
+                                    continue
+                                for nm, g in kk.methods.items():
+                                    if nm in seen:
+                                        continue
+                                    seen.add(nm)
+                                    if any(norm.canon(x.func) == "self." + f.name for x in norm.calls_in(g.node)):
+                                        return True
+                            return False
+                        concretes = [k for k in concretes if has_caller(k)]
+                for k in concretes:
+                    init = prog.lookup(k, "__init__")
+                    if init is None or is_abstract_body(init):
+                        continue
+                    if k.name not in constructed_names(prog) and prog.subclasses(k, strict=True):
+                        continue   # a base class nobody instantiates: only its subclasses are ever `self.__class__`
+                    m, probs = bind_args(c, init)
+                    if m is None:
+                        continue   # *args / **kwargs at the site: not checkable here
+                    sites += 1
+                    ctx.saw(f)
+                    tag = "" if k is cls else " [as %s]" % k.name
+                    ctx.ob(f, not probs, "%s(...) fits %s.__init__%s" % (norm.canon(c.func), k.name, tag), detail="; ".join(probs), loc=ctx.nodeloc(f, c))
+                    params, state = _init_state_params(init)
+                    for p in params:
+                        if p in m or not state[p]:
+                            continue
+                        attrs = state[p] - {"<passed to the base constructor>"}
+                        if attrs and attrs <= restored:
+                            continue
+                        if (f.short, p) in exceptions:
+                            continue
+                        ctx.ob(f, False, "the re-created %s keeps `%s`%s" % (k.name, p, tag),
+                               detail="%s builds a new %s without passing %s (stored as %s by the constructor): the rewritten object silently falls back to "
+                                      "the default" % (f.short, k.name, p, ", ".join("self." + a_ for a_ in sorted(attrs)) or "base-class state"),
+                               loc=ctx.nodeloc(f, c))
+                    if all(p in m or not state[p] or (state[p] - {"<passed to the base constructor>"} and state[p] - {"<passed to the base constructor>"} <= restored)
+                           or (f.short, p) in exceptions for p in params):
+                        ctx.ob(f, True, "the re-created %s keeps every stateful constructor parameter%s" % (k.name, tag), loc=ctx.nodeloc(f, c))
+            # an override that delegates to the base method (`Base.m(self, ...)`) restores the state its own constructor adds
+            for c in norm.calls_in(f.node):
+                if isinstance(c.func, ast.Attribute) and c.func.attr == f.name and isinstance(c.func.value, ast.Name) and c.args \
+                        and isinstance(c.args[0], ast.Name) and c.args[0].id == "self":
+                    base = [b for b in prog.mro(cls)[1:] if not isinstance(b, str) and b.name == c.func.value.id]
+                    if not base or f.name not in base[0].methods:
+                        continue
+                    bm = base[0].methods[f.name]
+                    if not any(norm.canon(x.func) in ("self.__class__", "type(self)") for x in norm.calls_in(bm.node)):
+                        continue
+                    init = prog.lookup(cls, "__init__")
+                    binit = prog.lookup(base[0], "__init__")
+                    if init is None or binit is None or init is binit:
+                        continue
+                    params, state = _init_state_params(init)
+                    bparams, _ = _init_state_params(binit)
+                    for p in params:
+                        attrs = state[p] - {"<passed to the base constructor>"}
+                        if p in bparams or not attrs:
+                            continue
+                        sites += 1
+                        ctx.ob(f, attrs <= restored or (f.short, p) in exceptions,
+                               "the override copies `%s` onto what %s.%s() re-created" % (p, base[0].name, f.name),
+                               detail="%s.%s() builds self.__class__(...) without %s; the override must set %s on the result" % (
+                                   base[0].name, f.name, p, ", ".join(sorted(attrs))), loc=ctx.nodeloc(f, c))
+    return sites
